@@ -226,6 +226,9 @@ class Interp:
             return Sym("ext:" + r[1])
         if name in _BUILTIN_SYMS:
             return Sym("builtin:" + name)
+        if name in _local_names(self.func):
+            # a local that is read before any assignment on this path
+            raise RaiseSignal("UnboundLocalError", node, payload=name)
         raise Undecided(f"unbound name {name} in {self.func.qual}")
 
     def get_attr(self, base, attr: str, node):
@@ -1089,6 +1092,20 @@ class _DictView:
 
     def __iter__(self):
         return iter(self.materialise())
+
+
+_LOCALS_CACHE: dict = {}
+
+
+def _local_names(f) -> set:
+    k = id(f.node)
+    if k not in _LOCALS_CACHE:
+        out = set()
+        for n in _walk_no_nested(f.node):
+            if isinstance(n, ast.Name) and isinstance(n.ctx, ast.Store):
+                out.add(n.id)
+        _LOCALS_CACHE[k] = out
+    return _LOCALS_CACHE[k]
 
 
 def _walk_no_nested(node):
